@@ -161,7 +161,7 @@ SPECS = {
         "trusted_base": QUERY_TB,
         "assumptions": [
             "'answered' = an on_success call for the peer was made after next handed it out (the service calls on_success from discovered() for responses to the query's request)",
-            "'every candidate it learned of' = every peer the query holds: the first num_results initial candidates (with_config applies .take(num_results) to the list it is given; the others are dropped, see C10_complete_wrt_all_initial_candidates_refuted) and every id reported in an accepted on_success",
+            "'every candidate it learned of' = every peer the query holds: the first num_results initial candidates (with_config applies .take(num_results) to the list it is given; the others are dropped, see C10_seed_truncation_observation) and every id reported in an accepted on_success",
         ],
         "explanation": "theorems over Model/Query.v (result is a subset of the peers that answered after being contacted, at most num_results, strictly sorted by XOR distance, distinct, predicate flag from the candidates / reports, completeness when short, the pool hands out reachable query states) + the same correspondence run as C09 + direct monitors on the result",
     },
